@@ -122,6 +122,13 @@ NL_Triples == ListsOver(Eight, 3)
 NamesOver(A, n) == UNION {[1 .. m -> A] : m \in 0 .. n}
 NL_Sub == UNION {ListsOver(NamesOver(A, 2), 2) \cup ListsOver(NamesOver(A, 3), 1) : A \in NameAlphabets}
 NL_SinglesSub == NL_Singles \cup NL_Sub
+(* names related the way file-name handling could conflate: they differ only after the last dot, only by case, by a trailing
+   dot / space, one is a prefix of the other, one is another plus ".log" / ".stdout", several dots, a leading dot *)
+Related == {<<"a">>, <<"A">>, <<"a", ".">>, <<"a", "sp">>, <<".", "a">>, <<"a", "b">>, <<"a", ".", "a">>, <<"a", ".", "b">>,
+            <<"a", ".", "log">>, <<"a", ".", "stdout">>, <<"a", ".", "a", ".", "a">>, <<"a", ".", "a", ".", "b">>,
+            <<".", "a", ".", "b">>, <<"a", ".", ".", "b">>}
+NL_TriplesRel == NL_Triples \cup ListsOver(Related, 2)
+NL_Related == ListsOver(Related, 3)
 
 -----------------------------------------------------------------------------
 NoCmds == <<>>
@@ -219,10 +226,14 @@ Required(e, G) == \/ e.kind = "file" /\ [path |-> e.path, owner |-> e.owner] \in
 FsCovers(F, G, D) == /\ Files(G) \subseteq Files(F) /\ DirPaths(G) \subseteq DirPaths(F)
                      /\ \A e \in F : Required(e, G) \/ ExtraAllowed(e, D)
 
+(* the capture files belong to one task only: P[i] = the set of capture files of task i *)
+OwnFiles(P) == \A i, j \in DOMAIN P : i # j => P[i] \cap P[j] = {}
+
 DirsNow == [i \in accepted |-> DirOf(names[i])]
 C19_DirBelowRoot  == op = "names" => DirBelowRoot(DirsNow)
 C19_DirInjective  == op = "names" => DirInjective(DirsNow)
 C19_DirNotCapture == op = "names" => DirNotCapture(DirsNow) /\ FsConsistent(fs)
+C19_OwnFiles      == op = "names" => OwnFiles([i \in accepted |-> {CapOut(names[i]), CapErr(names[i])}])
 C19_Rejected      == op = "names" => /\ InvalidRejected(SubSeq(names, 1, k - 1), accepted)
                                      /\ FsCovers(fs, FsOf(names, k - 1), DirsNow)
                                      /\ DirsNow = DirsOf(names, k - 1)
@@ -241,4 +252,9 @@ W_NestedName   == ~(op = "names" /\ \E i \in DOMAIN names : Len(Components(names
 W_OddNamePair  == ~(op = "names" /\ k > Len(names) /\ Cardinality(accepted) = 2
                     /\ \E i, j \in accepted : /\ \E x \in DOMAIN names[i] : names[i][x] \notin Atoms \cup {"b"}
                                               /\ names[j] # <<>> /\ \A x \in DOMAIN names[j] : names[j][x] \in {"a", "b"})
+(* two accepted tasks whose names differ only after the last dot (<<"a", ".", "a">> and <<"a", ".", "b">>) *)
+W_RelatedPair  == ~(op = "names" /\ k > Len(names)
+                    /\ \E i, j \in accepted : /\ i # j /\ Len(names[i]) = Len(names[j]) /\ Len(names[i]) >= 3
+                                              /\ names[i][Len(names[i]) - 1] = "."
+                                              /\ SubSeq(names[i], 1, Len(names[i]) - 1) = SubSeq(names[j], 1, Len(names[j]) - 1))
 =============================================================================
